@@ -314,10 +314,22 @@ func (c *loopClient) entryRelative(e *Engine, x ast.Expr, infos ...*types.Info) 
 	return k, true
 }
 
-// PreAssign: `x = <field path of x's own current value>` (x a syntax-tree node) is progress by descent.
+// PreAssign: `x = <field path of x's own current value>` (x a syntax-tree node) is progress by descent;
+// `s = s[k:]` with k >= 1 known (s a string or slice) is progress by shrinking: the length strictly decreases and
+// cannot go below zero.
 func (c *loopClient) PreAssign(e *Engine, st *State, lhs, rhs []ast.Expr, _ ast.Stmt) *State {
 	if len(lhs) != 1 || len(rhs) != 1 {
 		return nil
+	}
+	if sl, ok := ast.Unparen(rhs[0]).(*ast.SliceExpr); ok && sl.High == nil && sl.Max == nil && sl.Low != nil {
+		if lo := objOf(e.Info, lhs[0]); lo != nil && lo == objOf(e.Info, sl.X) {
+			if v, isC := constInt(e.Info, sl.Low); isC && v >= 1 {
+				return c.bump(st, 1)
+			}
+			if f := e.valueOf(st, sl.Low); f != nil && f.Lo != nil && *f.Lo >= 1 {
+				return c.bump(st, 1)
+			}
+		}
 	}
 	o := objOf(e.Info, lhs[0])
 	if o == nil || !types.Implements(o.Type(), c.w.p.Iface(c.w.p.Parser, "Node")) {
